@@ -60,6 +60,9 @@ pub struct FnInfo {
     pub name: String,
     pub self_mode: SelfMode,
     pub params: Vec<(String, Ty)>,
+    /// a `Result` fn with `&mut` state (`&mut self` / `&mut` parameters): its `Err` carries the state it leaves behind
+    /// (`Res (E × State) (State × T)`)
+    pub err_state: bool,
     /// `const N: usize` generic parameters (explicit leading arguments of the generated function)
     pub const_params: Vec<String>,
     /// parameters passed as `&mut <semantic-model type>`: threaded through (returned with the result)
@@ -447,6 +450,7 @@ impl Globals {
                             name: fn_name,
                             self_mode,
                             params,
+                            err_state: matches!(ret, Ty::Res(_, _)) && (self_mode == SelfMode::Mut || !mut_params.is_empty()),
                             mut_params,
                             const_params,
                             ret,
@@ -489,6 +493,10 @@ pub fn impl_trait_model(t: &syn::Type) -> Option<&'static str> {
 
 pub const BUILTIN_NS: &str = "RustSem";
 
+/// semantic-model methods whose failure leaves the cursor in a changed state (their `Err` carries it); all other
+/// model methods fail before touching the cursor
+pub const ERR_STATE_BUILTINS: &[(&str, &str)] = &[("WriteCursor", "write_all"), ("Octets", "get_bytes_with_varint_length")];
+
 /// The semantic-model types of RustSem and their methods (hand-written in RustSem.lean, trusted):
 /// `std::ops::Range<u64>`, `octets::{OctetsMut, Octets, BufferTooShortError}`.
 fn register_builtins(g: &mut Globals) {
@@ -512,6 +520,7 @@ fn register_builtins(g: &mut Globals) {
             params: params.into_iter().map(|(a, b)| (a.to_string(), b)).collect(),
             mut_params: vec![],
             const_params: vec![],
+            err_state: ERR_STATE_BUILTINS.contains(&(st, name)),
             ret,
             order: 0,
         });
@@ -545,6 +554,7 @@ fn register_builtins(g: &mut Globals) {
         params: vec![("v".to_string(), Ty::Int(64))],
         mut_params: vec![],
         const_params: vec![],
+        err_state: false,
         ret: Ty::usize(),
         order: 0,
     });
@@ -632,6 +642,14 @@ pub fn conv_ty(file: &str, t: &syn::Type, self_ty: Option<&str>, type_names: &[S
                     ))
                 }
                 ("Bytes", 0) => return Ok(Ty::List(Box::new(Ty::u8()), ListKind::Bytes)),
+                ("BTreeMap", 2) | ("HashMap", 2) => {
+                    let k = conv_ty(file, args[0], self_ty, type_names)?;
+                    if !matches!(k, Ty::Int(_)) {
+                        return err_at(file, t.span(), "only maps with an unsigned integer key are supported");
+                    }
+                    let v = conv_ty(file, args[1], self_ty, type_names)?;
+                    return Ok(Ty::Map(Box::new(k), Box::new(v), name == "HashMap"));
+                }
                 ("Range", 1) => {
                     return match conv_ty(file, args[0], self_ty, type_names)? {
                         Ty::Int(64) => Ok(Ty::Named("Range".into())),
